@@ -362,4 +362,36 @@ theorem concatenation_formats_are_not_pickled :
     SSE1_key_pickled = false ∧ SSE1_token_pickled = false ∧ SSE2_key_pickled = false ∧ DP17_key_pickled = false := by
   decide
 
+
+/-! ### the encrypted database's envelope (header ‖ pickled parts), with the headers and the field order read off the source -/
+
+/-- the envelope round-trips for every header and payload … -/
+theorem edb_envelope_roundtrip (hdr payload : Bytes) : edbDeser hdr (edbSer hdr payload) = .ok payload := by
+  simp [edbDeser, edbSer]
+
+/-- … and with a codec that round-trips (`loads (dumps x) = x`: the law assumed of `pickle`) the whole object does -/
+theorem edb_roundtrip {α : Type} (dumps : α → Bytes) (loads : Bytes → Except Err α) (hcodec : ∀ x, loads (dumps x) = .ok x)
+    (hdr : Bytes) (e : α) : (edbDeser hdr (edbSer hdr (dumps e))).bind loads = .ok e := by
+  rw [edb_envelope_roundtrip]; exact hcodec e
+
+/-- bytes that do not start with the scheme's header are refused -/
+theorem edb_wrong_header_refused (hdr x : Bytes) (h : x.take hdr.length ≠ hdr) : edbDeser hdr x = .error .valueError := by
+  simp [edbDeser, h]
+
+/-- in the SOURCE (regenerated on every run): every `deserialize` of an encrypted database checks the header it cuts off, the nine
+    headers are pairwise different (an index of one scheme is refused by every other scheme), and the parts are handed to the
+    constructor in the order `serialize` pickled them -/
+theorem edb_envelopes_are_source :
+    (ANSS16_edb_checks_header && CT14_edb_checks_header && DP17_edb_checks_header && Pi2Lev_edb_checks_header &&
+     PiBas_edb_checks_header && PiPack_edb_checks_header && PiPtr_edb_checks_header && SSE1_edb_checks_header &&
+     SSE2_edb_checks_header) = true ∧
+    [ANSS16_edb_header, CT14_edb_header, DP17_edb_header, Pi2Lev_edb_header, PiBas_edb_header, PiPack_edb_header,
+     PiPtr_edb_header, SSE1_edb_header, SSE2_edb_header].Nodup ∧
+    ANSS16_edb_ser_fields = ANSS16_edb_deser_fields ∧ CT14_edb_ser_fields = CT14_edb_deser_fields ∧
+    DP17_edb_ser_fields = DP17_edb_deser_fields ∧ Pi2Lev_edb_ser_fields = Pi2Lev_edb_deser_fields ∧
+    PiBas_edb_ser_fields = PiBas_edb_deser_fields ∧ PiPack_edb_ser_fields = PiPack_edb_deser_fields ∧
+    PiPtr_edb_ser_fields = PiPtr_edb_deser_fields ∧ SSE1_edb_ser_fields = SSE1_edb_deser_fields ∧
+    SSE2_edb_ser_fields = SSE2_edb_deser_fields := by
+  decide
+
 end SSEPy.C03
